@@ -65,8 +65,58 @@ PLANES = ("xy", "xz", "yz")
 
 
 # ================================================================== snapshots
+class Keep:
+    """Keeps the snapshotted objects alive (so that `id`s stay meaningful); never influences equality."""
+
+    def __init__(self, xs):
+        self.xs = list(xs)
+
+    def __eq__(self, other):
+        return True
+
+    def __ne__(self, other):
+        return False
+
+
+class TrajSnap:
+    """Snapshot of a trajectory object: raw attributes and public views. Equality is the property's notion of
+    'unchanged': every attribute that existed is bit-for-bit the same, the only attributes that may appear are the
+    lazily computed caches, and every public view is bit-for-bit the same."""
+
+    def __init__(self, o, depth):
+        self.cls = type(o).__name__
+        self.raw = {k: snap(v, depth + 1) for k, v in o.__dict__.items()}
+        self.view = views(o)
+        self.keep = dict(o.__dict__)
+
+    def diff(self, other):
+        if not isinstance(other, TrajSnap) or other.cls != self.cls:
+            return "object replaced"
+        for k, v in self.raw.items():
+            if k not in other.raw:
+                return "attribute %s disappeared" % k
+            if other.raw[k] != v:
+                return "attribute %s changed" % k
+        for k in other.raw:
+            if k not in self.raw and k not in LAZY:
+                return "new attribute %s" % k
+        for k, v in self.view.items():
+            if other.view.get(k) != v:
+                return "view %s changed" % k
+        for k, v in self.keep.items():
+            if isinstance(v, (np.ndarray, list, dict)) and other.keep.get(k) is not v:
+                return "REBOUND: attribute %s is a new object with equal contents" % k
+        return None
+
+    def __eq__(self, other):
+        return self.diff(other) is None
+
+    def __ne__(self, other):
+        return not self == other
+
+
 def snap(o, depth=0):
-    """Deep, bit-level, hashable-free description of an object (compared with ==)."""
+    """Deep, bit-level description of an object (compare the snapshot taken before with the one taken after)."""
     from evo.core.trajectory import PosePath3D
     from evo.core.result import Result
     from evo.core.metrics import PE
@@ -78,12 +128,14 @@ def snap(o, depth=0):
         return ("nd", str(o.dtype), tuple(o.shape), o.tobytes())
     if isinstance(o, np.generic):
         return ("npg", str(o.dtype), o.tobytes())
-    if isinstance(o, (PosePath3D, Result, PE)):
+    if isinstance(o, PosePath3D):
+        return TrajSnap(o, depth)
+    if isinstance(o, (Result, PE)):
         return ("obj", type(o).__name__, [(k, snap(v, depth + 1)) for k, v in o.__dict__.items()])
     if isinstance(o, dict):
         return ("dict", [(snap(k, depth + 1), snap(v, depth + 1)) for k, v in o.items()])
     if isinstance(o, (list, tuple)):
-        return (type(o).__name__, [snap(x, depth + 1) for x in o])
+        return (type(o).__name__, [id(x) for x in o], [snap(x, depth + 1) for x in o], Keep(o))
     try:
         import pandas as pd
         if isinstance(o, pd.DataFrame):
@@ -101,12 +153,10 @@ def snap(o, depth=0):
 def views(o):
     """What can be seen through the public attributes; computed on a deep copy so that the object is not touched."""
     from evo.core.trajectory import PosePath3D, PoseTrajectory3D
-    if not isinstance(o, PosePath3D):
-        return snap(o)
     c = copy.deepcopy(o)
     out = {"class": type(c).__name__, "num_poses": c.num_poses,
            "positions_xyz": snap(c.positions_xyz), "orientations_quat_wxyz": snap(c.orientations_quat_wxyz),
-           "poses_se3": snap(list(c.poses_se3)), "meta": snap(c.meta), "projected": c._projected}
+           "poses_se3": snap(list(c.poses_se3))[2], "meta": snap(c.meta), "projected": c._projected}
     for name in ("distances", "path_length", "speeds", "timestamps"):
         if name in ("speeds", "timestamps") and not isinstance(c, PoseTrajectory3D):
             continue
@@ -117,30 +167,24 @@ def views(o):
     return out
 
 
-def raw(o):
-    from evo.core.trajectory import PosePath3D
-    if isinstance(o, PosePath3D):
-        return {k: snap(v) for k, v in o.__dict__.items()}
-    return {"_": snap(o)}
-
-
-def diff_arg(before_raw, before_view, o):
-    """None if object o still equals its snapshots, else a short description of the first difference."""
-    from evo.core.trajectory import PosePath3D
-    now = raw(o)
-    for k, v in before_raw.items():
-        if k not in now:
-            return "attribute %s disappeared" % k
-        if now[k] != v:
-            return "attribute %s changed" % k
-    for k in now:
-        if k not in before_raw and not (isinstance(o, PosePath3D) and k in LAZY):
-            return "new attribute %s" % k
-    if isinstance(o, PosePath3D):
-        nv = views(o)
-        for k, v in before_view.items():
-            if nv.get(k) != v:
-                return "view %s changed" % k
+def diff_snap(before, o):
+    """None if object o still equals the snapshot taken before, else a short description of the difference."""
+    now = snap(o)
+    if isinstance(before, TrajSnap):
+        return before.diff(now)
+    if before != now:
+        # locate a nested trajectory difference for the message
+        def walk(a, b, path):
+            if isinstance(a, TrajSnap):
+                d = a.diff(b)
+                return None if d is None else "%s: %s" % (path, d)
+            if isinstance(a, (list, tuple)) and isinstance(b, (list, tuple)) and len(a) == len(b):
+                for k, (x, y) in enumerate(zip(a, b)):
+                    r = walk(x, y, "%s[%d]" % (path, k))
+                    if r:
+                        return r
+            return None if a == b else "%s differs" % path
+        return walk(before, now, "value") or "value differs"
     return None
 
 
@@ -228,6 +272,7 @@ def run_history(hist):
     from evo.core import sync, trajectory, lie_algebra as lie, filters
     from evo.core.trajectory import PosePath3D, PoseTrajectory3D, Plane, TrajectoryException
     env, coq, steps, violations, aliased = [], [], [], [], {}
+    ctor_children = set()   # objects built by the constructor on another object's list of matrices
     planes = {"xy": Plane.XY, "xz": Plane.XZ, "yz": Plane.YZ}
     tr_rng = np.random.default_rng(77)
 
@@ -246,6 +291,9 @@ def run_history(hist):
     res_stack = []
 
     def resolve(x):
+        if isinstance(x, list) and x and x[0] == "pick":
+            cand = [h for h, o in enumerate(env) if o.num_poses >= 4] or list(range(len(env)))
+            return cand[x[1] % len(cand)]
         if isinstance(x, list) and x and x[0] in ("r", "r2"):
             rs = res_stack[-1 if x[0] == "r" else -2]
             return rs[x[1] % len(rs)]
@@ -259,7 +307,7 @@ def run_history(hist):
             op == "reduce" and k == 1) else x for k, x in enumerate(c[1:])]
         subject = c[1] if op in ("transform", "scale", "project", "reduce", "downsample", "time_range",
                                  "motion_filter", "align", "align_origin") else None
-        before = [(raw(o), views(o)) if k != subject else None for k, o in enumerate(env)]
+        before = [snap(o) if k != subject else None for k, o in enumerate(env)]
         # every array reachable from any object, to see which are written in place
         held = []
         for o in env:
@@ -374,6 +422,7 @@ def run_history(hist):
                 else:
                     r = PosePath3D(poses_se3=t.poses_se3, **kw)
                 res = add_results([r])
+                ctor_children.update(res)
                 term = "CCtorPoses %s %s" % (cnat(src), cbool(share_meta))
             elif op == "ctor_pq":
                 t = env[c[1]]
@@ -393,10 +442,13 @@ def run_history(hist):
         for k, b in enumerate(before):
             if b is None:
                 continue
-            d = diff_arg(b[0], b[1], env[k])
+            d = diff_snap(b, env[k])
             if d is not None:
                 violations.append({"step": pos, "what": "object %d (not operated on) changed during %s: %s"
-                                                        % (k, op, d)})
+                                                        % (k, op, d),
+                                   # constructor arguments shared with the caller are construction, not derivation
+                                   "construction": subject in ctor_children or k in ctor_children,
+                                   "soft": d.startswith("REBOUND")})
         # ---- an operation through a handle that IS its source object changes the source
         if subject is not None and aliased.get(subject) and views(env[subject]) != subj_view:
             violations.append({"step": pos, "what": "object %d was returned as a derived object but is its source "
@@ -515,10 +567,17 @@ def hist_judge(case, val, out):
     if "error" in out:
         return {"kind": "model-vs-impl", "failing_input": False, "correspondence": "Heap.exec (history ran into an "
                 "exception on the implementation)", "detail": out["error"]}
-    if out["violations"]:
-        v = out["violations"][0]
+    judged = [v for v in out["violations"] if not v.get("construction") and not v.get("soft")]
+    if judged:
+        v = judged[0]
         return {"kind": "spec-violation", "failing_input": True,
                 "detail": "history %s: step %d: %s" % (json.dumps(case["hist"]), v["step"], v["what"])}
+    if out["violations"]:
+        v = out["violations"][0]
+        return {"kind": "model-vs-impl", "failing_input": False, "correspondence": "Heap.exec (write footprint)",
+                "detail": "outside the stated clauses (object built by the constructor on another object's matrices, "
+                          "or a cached array replaced by an equal one): history %s: step %d: %s" % (
+                              json.dumps(case["hist"]), v["step"], v["what"])}
     (new_objs, new_log), (old_objs, old_log) = val
     mg, ig = model_graph(new_objs), out["graph"]
     why = _cmp_graph(mg, ig)
@@ -582,8 +641,8 @@ WARMS = [[], ["pos"], ["poses"], ["pos", "quat", "poses"]]
 N_A, N_O = 10, 8
 
 
-def mk_hist(mode, seed, warm, body, after):
-    h = [["init", mode, N_A, seed, True], ["init", "pq" if mode == "mat" else "mat", N_O, seed + 1, True]]
+def mk_hist(mode, seed, warm, body, after, stamped=True):
+    h = [["init", mode, N_A, seed, stamped], ["init", "pq" if mode == "mat" else "mat", N_O, seed + 1, stamped]]
     h += [["get", 0, g] for g in warm]
     h += body
     h += [["get", 0, g] for g in after]
@@ -602,6 +661,17 @@ def systematic_histories(ctx):
                         continue
                     b = ["r", (k // 3) % nres]
                     cases.append(mk_hist(mode, 10 + k % 7, warm, dcmds + [_mut(m, b)], WARMS[(k // 5) % len(WARMS)]))
+    # PosePath3D (no timestamps): the derivations and operations that exist for plain paths
+    for mode in ("mat", "pq"):
+        for dname, dcmds, nres in derivations(0, 1):
+            if dname not in ("copy", "split_dist_cut", "split_dist_nocut", "reduce_on_copy", "ctor_poses", "ctor_pq"):
+                continue
+            for m in MUTS:
+                k += 1
+                if m[0] == "time_range" or (ctx.quick and k % 3 != 0):
+                    continue
+                cases.append(mk_hist(mode, 10 + k % 7, WARMS[k % len(WARMS)], dcmds + [_mut(m, ["r", (k // 3) % nres])],
+                                     WARMS[(k // 5) % len(WARMS)], stamped=False))
     return cases
 
 
@@ -635,3 +705,718 @@ def three_step_histories(ctx):
                 body.append(_mut(safe[rng.randrange(len(safe))], 0))
         cases.append(mk_hist(mode, 20 + k % 11, warm, body, WARMS[rng.randrange(len(WARMS))]))
     return cases
+
+
+# ================================================================== (a) every public computing / writing function
+TARGET_MODULES = ["evo.core.trajectory", "evo.core.sync", "evo.core.metrics", "evo.core.result", "evo.core.filters",
+                  "evo.core.geometry", "evo.core.lie_algebra", "evo.core.transformations", "evo.core.units",
+                  "evo.tools.file_interface", "evo.tools.pandas_bridge", "evo.tools.plot", "evo.tools.settings",
+                  "evo.tools.settings_template", "evo.tools.tf_id", "evo.tools.user", "evo.tools.log",
+                  "evo.tools.tf_cache", "evo.tools.contextily_helper", "evo.tools._typing"]
+SKIP_MODULE = {
+    "evo.tools.settings": "settings/config files, no array or trajectory arguments (C18/C19)",
+    "evo.tools.settings_template": "constants for settings (C18)",
+    "evo.tools.tf_id": "TF identifiers / bag hashing (ROS TF, outside every property)",
+    "evo.tools.user": "interactive prompts (C17)",
+    "evo.tools.log": "logging configuration",
+    "evo.tools.tf_cache": "ROS TF cache: tf2_py not installed, outside every property",
+    "evo.tools.contextily_helper": "contextily not installed, outside every property",
+    "evo.tools._typing": "type aliases only",
+    "evo.core.units": "enum and constant tables only",
+}
+SKIP_NAME = {
+    "evo.tools.plot.PlotCollection.tabbed_qt5_window": "interactive window",
+    "evo.tools.plot.PlotCollection.tabbed_tk_window": "interactive window",
+    "evo.tools.plot.PlotCollection.show": "interactive window",
+    "evo.tools.plot.map_tile": "needs contextily and network",
+    "evo.tools.plot.ros_map": "needs a ROS map yaml + image file, no trajectory argument",
+    "evo.tools.plot.apply_settings": "matplotlib rc configuration, no array argument",
+    "evo.tools.file_interface.get_supported_topics": "bag reader introspection only, no array argument",
+    "evo.tools.file_interface.has_utf8_bom": "path argument only",
+    "evo.core.transformations.Arcball.place": "GUI arcball helper class, not used by evo",
+    "evo.core.transformations.Arcball.setaxes": "GUI arcball helper class, not used by evo",
+    "evo.core.transformations.Arcball.constrain": "GUI arcball helper class, not used by evo",
+    "evo.core.transformations.Arcball.down": "GUI arcball helper class, not used by evo",
+    "evo.core.transformations.Arcball.drag": "GUI arcball helper class, not used by evo",
+    "evo.core.transformations.Arcball.next": "GUI arcball helper class, not used by evo",
+    "evo.core.transformations.Arcball.matrix": "GUI arcball helper class, not used by evo",
+    "evo.core.transformations.Arcball.__init__": "GUI arcball helper class, not used by evo",
+    "evo.core.metrics.Metric.process_data": "abstract method (covered through APE / RPE)",
+    "evo.core.metrics.Metric.get_statistic": "abstract method (covered through PE)",
+    "evo.core.metrics.Metric.get_all_statistics": "abstract method (covered through PE)",
+    "evo.core.metrics.Metric.get_result": "abstract method (covered through PE)",
+    "evo.core.metrics.PE.process_data": "abstract method (covered through APE / RPE)",
+    "evo.core.transformations.random_quaternion": "no arguments by default",
+    "evo.core.transformations.random_rotation_matrix": "no arguments by default",
+    "evo.core.transformations.random_vector": "size argument only",
+    "evo.core.transformations.identity_matrix": "no arguments",
+    "evo.core.lie_algebra.random_so3": "no arguments",
+    "evo.core.lie_algebra.random_se3": "no arguments",
+}
+
+
+def enumerate_public():
+    """Qualified names of all public functions and public methods/properties of the target modules."""
+    names, failed = [], {}
+    for mn in TARGET_MODULES:
+        try:
+            mod = importlib.import_module(mn)
+        except Exception as e:   # noqa
+            failed[mn] = type(e).__name__
+            continue
+        for n, o in sorted(vars(mod).items()):
+            if n.startswith("_"):
+                continue
+            if inspect.isfunction(o) and o.__module__ == mn:
+                names.append("%s.%s" % (mn, n))
+            elif inspect.isclass(o) and o.__module__ == mn and not issubclass(o, (Exception,)) \
+                    and not (hasattr(o, "__members__")):
+                for k, v in vars(o).items():
+                    public = not k.startswith("_") or k in ("__init__", "__str__", "__eq__")
+                    if public and (inspect.isfunction(v) or isinstance(v, (property, staticmethod, classmethod))):
+                        names.append("%s.%s.%s" % (mn, n, k))
+    return names, failed
+
+
+class Inputs:
+    """Valid inputs for the call table: an associated pair of trajectories, raw arrays, results, figures."""
+
+    def __init__(self, mode, warm, seed):
+        from evo.core import metrics, lie_algebra as lie
+        from evo.core.trajectory import PosePath3D
+        self.mode, self.seed = mode, seed
+        self.n = 10
+        self.A = make_traj(mode, self.n, seed)
+        self.B = make_traj(mode, self.n, seed + 100)
+        self.C = make_traj("pq" if mode == "mat" else "mat", 8, seed + 200)
+        self.P = make_traj(mode, self.n, seed + 300, stamped=False)
+        self.Q = make_traj(mode, self.n, seed + 400, stamped=False)
+        self.trajs = {"A": self.A, "B": self.B, "C": self.C, "P": self.P, "Q": self.Q}
+        if warm:
+            for t in self.trajs.values():
+                t.positions_xyz, t.orientations_quat_wxyz, t.poses_se3
+        poses, ts = raw_data(seed + 500, self.n)
+        self.poses = poses
+        self.stamps = ts
+        self.stamps2 = ts[1:7] + 0.002
+        self.xyz = np.array([p[:3, 3] for p in poses])
+        self.xyz2 = np.array([p[:3, 3] for p in raw_data(seed + 600, self.n)[0]])
+        import evo.core.transformations as tr
+        self.quat = np.array([tr.quaternion_from_matrix(p) for p in poses])
+        self.T = poses[0].copy()
+        self.T2 = poses[1].copy()
+        self.S = lie.sim3(poses[2][:3, :3], poses[2][:3, 3], 1.5)
+        self.R = poses[3][:3, :3].copy()
+        self.R2 = poses[4][:3, :3].copy()
+        self.v = np.array([0.3, -0.2, 0.5])
+        self.v2 = np.array([-0.1, 0.7, 0.2])
+        self.q = self.quat[0].copy()
+        self.q2 = self.quat[1].copy()
+        self.ids = [0, 2, 3, 5, 7]
+        self.err = np.abs(np.sin(np.arange(self.n) + seed)) + 0.1
+        self.tmp = tempfile.mkdtemp(prefix="c16_")
+
+    def metric(self, cls="ape", rel=None, **kw):
+        from evo.core import metrics
+        rel = rel or metrics.PoseRelation.translation_part
+        m = metrics.APE(rel) if cls == "ape" else metrics.RPE(rel, **kw)
+        m.process_data((copy.deepcopy(self.A), copy.deepcopy(self.B)))
+        return m
+
+    def result(self, k=0):
+        m = self.metric()
+        m.error = m.error + k
+        r = m.get_result("ref", "est%d" % k)
+        r.add_trajectory("est", copy.deepcopy(self.B))
+        r.add_trajectory("path", copy.deepcopy(self.P))
+        return r
+
+    def ax(self, mode3d=False):
+        from evo.tools import plot
+        import matplotlib.pyplot as plt
+        fig = plt.figure()
+        return fig, plot.prepare_axis(fig, plot.PlotMode.xyz if mode3d else plot.PlotMode.xy)
+
+    def axarr(self):
+        import matplotlib.pyplot as plt
+        fig, axarr = plt.subplots(3)
+        return axarr
+
+    def cleanup(self):
+        import shutil
+        import matplotlib.pyplot as plt
+        plt.close("all")
+        shutil.rmtree(self.tmp, ignore_errors=True)
+
+
+def call_table():
+    """qualified name -> list of variants; a variant maps Inputs to (arguments to snapshot, thunk, model reader).
+    The model reader is (trajectory argument names in handle order, Coq reader term using those handles)."""
+    from evo.core import (filters, geometry, lie_algebra as lie, metrics, result, sync, trajectory,
+                          transformations as tr)
+    from evo.core.metrics import PoseRelation as PR, StatisticsType as ST, Unit
+    from evo.core.trajectory import PosePath3D, PoseTrajectory3D, Plane
+    from evo.tools import file_interface as fi, pandas_bridge as pb, plot
+    T = {}
+
+    def add(name, fn):
+        T.setdefault(name, []).append(fn)
+
+    tj, sy, me, re_, fl, ge, la, trn = ("evo.core.trajectory.", "evo.core.sync.", "evo.core.metrics.",
+                                        "evo.core.result.", "evo.core.filters.", "evo.core.geometry.",
+                                        "evo.core.lie_algebra.", "evo.core.transformations.")
+    fin, pbn, pl = "evo.tools.file_interface.", "evo.tools.pandas_bridge.", "evo.tools.plot."
+
+    # ---------------- trajectory: constructors, properties, readers
+    add(tj + "PosePath3D.__init__", lambda I: ({"xyz": I.xyz, "quat": I.quat},
+                                               lambda: PosePath3D(I.xyz, I.quat).poses_se3, None))
+    add(tj + "PosePath3D.__init__", lambda I: ({"poses": I.poses, "meta": I.__dict__.setdefault("m", {"k": 1})},
+                                               lambda: PosePath3D(poses_se3=I.poses, meta=I.m).positions_xyz, None))
+    add(tj + "PoseTrajectory3D.__init__", lambda I: ({"xyz": I.xyz, "quat": I.quat, "stamps": I.stamps},
+                                                     lambda: PoseTrajectory3D(I.xyz, I.quat, I.stamps).poses_se3, None))
+    add(tj + "PoseTrajectory3D.__init__", lambda I: ({"poses": I.poses, "stamps": I.stamps},
+                                                     lambda: PoseTrajectory3D(poses_se3=I.poses, timestamps=I.stamps).distances, None))
+    for cls, obj in (("PosePath3D", "P"), ("PoseTrajectory3D", "A")):
+        rd = lambda r, o=obj: ([o], r)   # noqa
+        add(tj + cls + ".__str__", lambda I, o=obj: ({o: I.trajs[o]}, lambda: str(I.trajs[o]), ([o], "RInfo 0 false")))
+        add(tj + cls + ".__eq__", lambda I, o=obj: ({o: I.trajs[o], "other": I.B if o == "A" else I.Q},
+                                                    lambda: (I.trajs[o] == (I.B if o == "A" else I.Q),
+                                                             I.trajs[o] != (I.B if o == "A" else I.Q)), None))
+        add(tj + cls + ".check", lambda I, o=obj: ({o: I.trajs[o]}, lambda: I.trajs[o].check(), ([o], "RInfo 0 true")))
+        add(tj + cls + ".get_infos", lambda I, o=obj: ({o: I.trajs[o]}, lambda: I.trajs[o].get_infos(), ([o], "RInfo 0 false")))
+        add(tj + cls + ".get_statistics", lambda I, o=obj: ({o: I.trajs[o]}, lambda: I.trajs[o].get_statistics(),
+                                                            ([o], "RInfo 0 false") if o == "A" else None))
+        add(tj + cls + ".split_distance_gaps", lambda I, o=obj: ({o: I.trajs[o]}, lambda: I.trajs[o].split_distance_gaps(10.0), None))
+    for prop, rdr in (("positions_xyz", "RPlotPositions [0]"), ("distances", "RInfo 0 false"),
+                      ("path_length", "RInfo 0 false"), ("orientations_quat_wxyz", None), ("poses_se3", "RPlotAxes 0"),
+                      ("num_poses", "RPlotRpy 0")):
+        add(tj + "PosePath3D." + prop, lambda I, p=prop, r=rdr: ({"P": I.P, "A": I.A}, lambda: (getattr(I.P, p), getattr(I.A, p)),
+                                                                (["P"], r) if r else None))
+    add(tj + "PosePath3D.get_orientations_euler", lambda I: ({"P": I.P}, lambda: I.P.get_orientations_euler(), (["P"], "RPlotRpy 0")))
+    add(tj + "PoseTrajectory3D.speeds", lambda I: ({"A": I.A}, lambda: I.A.speeds, (["A"], "RInfo 0 false")))
+    add(tj + "PoseTrajectory3D.split_time_gaps", lambda I: ({"A": I.A}, lambda: (I.A.split_time_gaps(5.0), I.A.split_time_gaps(1e6)), None))
+    add(tj + "PoseTrajectory3D.split_speed_outliers", lambda I: ({"A": I.A}, lambda: (I.A.split_speed_outliers(10.0), I.A.split_speed_outliers(1e6)), None))
+    # in-place methods: the object operated on is exempt, every other argument is checked
+    add(tj + "PosePath3D.transform", lambda I: ({"t": I.T, "B": I.B}, lambda: (I.A.transform(I.T), I.P.transform(I.S, right_mul=True, propagate=True)), None))
+    add(tj + "PosePath3D.scale", lambda I: ({"B": I.B}, lambda: I.A.scale(2.0), None))
+    add(tj + "PosePath3D.project", lambda I: ({"B": I.B}, lambda: (I.A.project(Plane.XY), I.P.project(Plane.XZ)), None))
+    add(tj + "PosePath3D.align", lambda I: ({"ref": I.B}, lambda: I.A.align(I.B, correct_scale=True), None))
+    add(tj + "PosePath3D.align", lambda I: ({"ref": I.Q}, lambda: I.P.align(I.Q, correct_only_scale=True, n=5), None))
+    add(tj + "PosePath3D.align_origin", lambda I: ({"ref": I.B}, lambda: I.A.align_origin(I.B), None))
+    add(tj + "PosePath3D.reduce_to_ids", lambda I: ({"ids": I.ids, "B": I.B}, lambda: I.P.reduce_to_ids(I.ids), None))
+    add(tj + "PoseTrajectory3D.reduce_to_ids", lambda I: ({"ids": I.__dict__.setdefault("ida", np.array(I.ids)), "B": I.B},
+                                                          lambda: I.A.reduce_to_ids(I.ida), None))
+    add(tj + "PosePath3D.downsample", lambda I: ({"B": I.B}, lambda: (I.A.downsample(4), I.P.downsample(100)), None))
+    add(tj + "PosePath3D.motion_filter", lambda I: ({"B": I.B}, lambda: I.A.motion_filter(0.5, 0.2), None))
+    add(tj + "PoseTrajectory3D.reduce_to_time_range", lambda I: ({"B": I.B}, lambda: I.A.reduce_to_time_range(I.stamps[1], I.stamps[-2]), None))
+    add(tj + "merge", lambda I: ({"A": I.A, "C": I.C, "lst": I.__dict__.setdefault("lst", [I.A, I.C])},
+                                 lambda: trajectory.merge(I.lst), None))
+    add(tj + "calc_speed", lambda I: ({"a": I.xyz[0], "b": I.xyz[1]}, lambda: trajectory.calc_speed(I.xyz[0], I.xyz[1], 1.0, 2.0), None))
+    add(tj + "calc_angular_speed", lambda I: ({"a": I.T, "b": I.T2}, lambda: trajectory.calc_angular_speed(I.T, I.T2, 1.0, 2.0, True), None))
+    add(tj + "xyz_quat_wxyz_to_se3_poses", lambda I: ({"xyz": I.xyz, "quat": I.quat}, lambda: trajectory.xyz_quat_wxyz_to_se3_poses(I.xyz, I.quat), None))
+    add(tj + "se3_poses_to_xyz_quat_wxyz", lambda I: ({"poses": I.poses}, lambda: trajectory.se3_poses_to_xyz_quat_wxyz(I.poses), None))
+
+    # ---------------- sync
+    add(sy + "matching_time_indices", lambda I: ({"s1": I.stamps, "s2": I.stamps2},
+                                                 lambda: sync.matching_time_indices(I.stamps, I.stamps2, 0.01, 0.5), None))
+    add(sy + "matching_time_indices", lambda I: ({"A": I.A, "C": I.C},
+                                                 lambda: sync.matching_time_indices(I.A.timestamps, I.C.timestamps, 0.01, 0.001), None))
+    add(sy + "associate_trajectories", lambda I: ({"A": I.A, "C": I.C}, lambda: sync.associate_trajectories(I.A, I.C, 0.01, 0.001), None))
+    add(sy + "associate_trajectories", lambda I: ({"A": I.A, "C": I.C}, lambda: sync.associate_trajectories(I.C, I.A, 0.01), None))
+
+    # ---------------- metrics
+    for rel in PR:
+        pos_based = rel in (PR.translation_part, PR.point_distance)
+        if rel != PR.point_distance_error_ratio:
+            add(me + "APE.process_data", lambda I, rel=rel, pb_=pos_based: (
+                {"ref": I.A, "est": I.B, "data": I.__dict__.setdefault("data", (I.A, I.B))},
+                lambda: metrics.APE(rel).process_data(I.data),
+                (["A", "B"], "RApe %s 2 0 1" % cbool(pb_))))
+        rp = rel in (PR.point_distance, PR.point_distance_error_ratio)
+        for k, (delta, unit, allp, fromref) in enumerate(((1, Unit.frames, False, False), (2.0, Unit.meters, True, True),
+                                                         (20.0, Unit.degrees, False, True), (2.0, Unit.radians, True, False))):
+            if (list(PR).index(rel) + k) % 2:
+                continue
+            add(me + "RPE.process_data", lambda I, rel=rel, rp=rp, d=delta, u=unit, a=allp, f=fromref: (
+                {"ref": I.A, "est": I.B},
+                lambda: metrics.RPE(rel, d, u, 0.5, a, f).process_data((I.A, I.B)),
+                (["A", "B"], "RRpe %s %s 2 0 1" % (cbool(rp), cbool(f)))))
+    add(me + "APE.ape_base", lambda I: ({"a": I.T, "b": I.T2}, lambda: metrics.APE.ape_base(I.T, I.T2), None))
+    add(me + "RPE.rpe_base", lambda I: ({"a": I.T, "b": I.T2, "c": I.poses[5], "d": I.poses[6]},
+                                        lambda: metrics.RPE.rpe_base(I.T, I.T2, I.poses[5], I.poses[6]), None))
+
+    def with_metric(name, f, exempt_metric=False):
+        def variant(I, cls):
+            m = I.metric(cls, PR.translation_part) if cls == "ape" else I.metric(cls, PR.translation_part, delta=1, delta_unit=Unit.frames)
+            args = {} if exempt_metric else {"metric": m}
+            return args, (lambda: f(m)), None
+        add(name, lambda I: variant(I, "ape"))
+        add(name, lambda I: variant(I, "rpe"))
+    with_metric(me + "PE.get_statistic", lambda m: [m.get_statistic(s) for s in ST])
+    with_metric(me + "PE.get_all_statistics", lambda m: m.get_all_statistics())
+    with_metric(me + "PE.get_result", lambda m: m.get_result("a", "b"))
+    with_metric(me + "PE.__str__", lambda m: str(m))
+    with_metric(me + "PE.change_unit", lambda m: m.change_unit(Unit.millimeters), exempt_metric=True)
+    add(me + "APE.__init__", lambda I: ({}, lambda: metrics.APE(PR.rotation_part), None))
+    add(me + "RPE.__init__", lambda I: ({}, lambda: metrics.RPE(PR.rotation_part, 2, Unit.frames), None))
+    add(me + "APE.__str__", lambda I: ({}, lambda: str(metrics.APE()), None))
+    add(me + "RPE.__str__", lambda I: ({}, lambda: str(metrics.RPE()), None))
+    add(me + "PE.__init__", lambda I: ({}, lambda: metrics.APE(), None))
+    for k, (delta, unit) in enumerate(((2, Unit.frames), (2.0, Unit.meters), (100.0, Unit.degrees), (2.0, Unit.radians))):
+        for allp in (False, True):
+            add(me + "id_pairs_from_delta", lambda I, d=delta, u=unit, a=allp: (
+                {"poses": I.poses, "A": I.A}, lambda: (metrics.id_pairs_from_delta(I.poses, d, u, 0.5, a),
+                                                       metrics.id_pairs_from_delta(I.A.poses_se3, d, u, 0.5, a)), None))
+
+    # ---------------- result
+    add(re_ + "merge_results", lambda I: (dict(r1=I.__dict__.setdefault("r1", I.result(0)), r2=I.__dict__.setdefault("r2", I.result(1)),
+                                               lst=I.__dict__.setdefault("rl", [I.r1, I.r2])), lambda: result.merge_results(I.rl), None))
+    add(re_ + "merge_results", lambda I: (dict(r1=I.__dict__.setdefault("r1", I.result(0)), lst=I.__dict__.setdefault("rl1", [I.r1])),
+                                          lambda: result.merge_results(I.rl1), None))
+
+    def res_variant(f):
+        def v(I):
+            r, o = I.result(0), I.result(2)
+            return {"other": o, "arr": I.err, "traj": I.A, "d": I.__dict__.setdefault("dd", {"k": 1.5})}, (lambda: f(I, r, o)), None
+        return v
+    add(re_ + "Result.__init__", lambda I: ({}, lambda: result.Result(), None))
+    add(re_ + "Result.__str__", res_variant(lambda I, r, o: str(r)))
+    add(re_ + "Result.__eq__", res_variant(lambda I, r, o: (r == o, r != o)))
+    add(re_ + "Result.pretty_str", res_variant(lambda I, r, o: r.pretty_str(info=True)))
+    add(re_ + "Result.add_np_array", res_variant(lambda I, r, o: r.add_np_array("x", I.err)))
+    add(re_ + "Result.add_info", res_variant(lambda I, r, o: r.add_info(I.dd)))
+    add(re_ + "Result.add_stats", res_variant(lambda I, r, o: r.add_stats(I.dd)))
+    add(re_ + "Result.add_trajectory", res_variant(lambda I, r, o: r.add_trajectory("t", I.A)))
+
+    # ---------------- filters / geometry
+    for allp in (False, True):
+        add(fl + "filter_pairs_by_index", lambda I, a=allp: ({"poses": I.poses}, lambda: filters.filter_pairs_by_index(I.poses, 2, a), None))
+        add(fl + "filter_pairs_by_path", lambda I, a=allp: ({"poses": I.poses}, lambda: filters.filter_pairs_by_path(I.poses, 2.0, 1.0, a), None))
+        add(fl + "filter_pairs_by_angle", lambda I, a=allp: ({"poses": I.poses}, lambda: filters.filter_pairs_by_angle(I.poses, 100.0, 50.0, True, a), None))
+    add(fl + "filter_by_motion", lambda I: ({"poses": I.poses}, lambda: filters.filter_by_motion(I.poses, 0.5, 10.0, True), None))
+    for ws in (False, True):
+        add(ge + "umeyama_alignment", lambda I, w=ws: ({"x": I.xyz, "y": I.xyz2, "xt": I.__dict__.setdefault("xt", I.xyz.T.copy()),
+                                                        "yt": I.__dict__.setdefault("yt", I.xyz2.T.copy())},
+                                                       lambda: (geometry.umeyama_alignment(I.xyz.T, I.xyz2.T, w),
+                                                                geometry.umeyama_alignment(I.xt, I.yt, w)), None))
+    add(ge + "arc_len", lambda I: ({"x": I.xyz}, lambda: geometry.arc_len(I.xyz), None))
+    add(ge + "accumulated_distances", lambda I: ({"x": I.xyz}, lambda: geometry.accumulated_distances(I.xyz), None))
+
+    # ---------------- lie_algebra
+    for name, f, argn in (
+            ("hat", lambda I: lie.hat(I.v), ["v"]), ("vee", lambda I: lie.vee(lie.hat(I.v)), ["v"]),
+            ("so3_exp", lambda I: lie.so3_exp(I.v), ["v"]), ("so3_log", lambda I: (lie.so3_log(I.R), lie.so3_log(I.R, True)), ["R"]),
+            ("so3_log_angle", lambda I: lie.so3_log_angle(I.R, True), ["R"]),
+            ("se3", lambda I: lie.se3(I.R, I.v), ["R", "v"]), ("sim3", lambda I: lie.sim3(I.R, I.v, 2.0), ["R", "v"]),
+            ("so3_from_se3", lambda I: lie.so3_from_se3(I.T), ["T"]), ("se3_inverse", lambda I: lie.se3_inverse(I.T), ["T"]),
+            ("sim3_scale", lambda I: lie.sim3_scale(I.S), ["S"]), ("sim3_inverse", lambda I: lie.sim3_inverse(I.S), ["S"]),
+            ("is_so3", lambda I: lie.is_so3(I.R), ["R"]), ("is_se3", lambda I: lie.is_se3(I.T), ["T"]),
+            ("is_sim3", lambda I: (lie.is_sim3(I.S), lie.is_sim3(I.S, 1.5)), ["S"]),
+            ("relative_so3", lambda I: lie.relative_so3(I.R, I.R2), ["R", "R2"]),
+            ("relative_se3", lambda I: lie.relative_se3(I.T, I.T2), ["T", "T2"]),
+            ("sst_rotation_from_matrix", lambda I: lie.sst_rotation_from_matrix(I.R), ["R"])):
+        add(la + name, lambda I, f=f, argn=argn: ({k: getattr(I, k) for k in argn}, lambda: f(I), None))
+
+    # ---------------- transformations (third-party module shipped in evo.core)
+    for name, f, argn in (
+            ("quaternion_from_matrix", lambda I: tr.quaternion_from_matrix(I.T), ["T"]),
+            ("quaternion_matrix", lambda I: tr.quaternion_matrix(I.q), ["q"]),
+            ("euler_from_matrix", lambda I: tr.euler_from_matrix(I.T, "sxyz"), ["T"]),
+            ("euler_from_quaternion", lambda I: tr.euler_from_quaternion(I.q), ["q"]),
+            ("euler_matrix", lambda I: tr.euler_matrix(0.1, 0.2, 0.3), []),
+            ("quaternion_from_euler", lambda I: tr.quaternion_from_euler(0.1, 0.2, 0.3), []),
+            ("quaternion_about_axis", lambda I: tr.quaternion_about_axis(0.3, I.v), ["v"]),
+            ("quaternion_multiply", lambda I: tr.quaternion_multiply(I.q, I.q2), ["q", "q2"]),
+            ("quaternion_conjugate", lambda I: tr.quaternion_conjugate(I.q), ["q"]),
+            ("quaternion_inverse", lambda I: tr.quaternion_inverse(I.q), ["q"]),
+            ("quaternion_real", lambda I: tr.quaternion_real(I.q), ["q"]),
+            ("quaternion_imag", lambda I: tr.quaternion_imag(I.q), ["q"]),
+            ("quaternion_slerp", lambda I: tr.quaternion_slerp(I.q, I.q2, 0.3), ["q", "q2"]),
+            ("translation_matrix", lambda I: tr.translation_matrix(I.v), ["v"]),
+            ("translation_from_matrix", lambda I: tr.translation_from_matrix(I.T), ["T"]),
+            ("reflection_matrix", lambda I: tr.reflection_matrix(I.v, I.v2), ["v", "v2"]),
+            ("reflection_from_matrix", lambda I: tr.reflection_from_matrix(tr.reflection_matrix(I.v, I.v2)), ["v", "v2"]),
+            ("rotation_matrix", lambda I: tr.rotation_matrix(0.4, I.v, I.v2), ["v", "v2"]),
+            ("rotation_from_matrix", lambda I: tr.rotation_from_matrix(I.T - np.diag([0, 0, 0, 0]) * 0 + 0 * I.T), ["T"]),
+            ("scale_matrix", lambda I: tr.scale_matrix(1.5, I.v, I.v2), ["v", "v2"]),
+            ("scale_from_matrix", lambda I: tr.scale_from_matrix(tr.scale_matrix(1.5, I.v)), ["v"]),
+            ("projection_matrix", lambda I: tr.projection_matrix(I.v, I.v2), ["v", "v2"]),
+            ("projection_from_matrix", lambda I: tr.projection_from_matrix(tr.projection_matrix(I.v, I.v2)), ["v", "v2"]),
+            ("clip_matrix", lambda I: tr.clip_matrix(0, 1, 0, 1, 1, 2), []),
+            ("shear_matrix", lambda I: tr.shear_matrix(0.3, np.array([1., 0, 0]), I.v, np.array([0., 0, 1])), ["v"]),
+            ("shear_from_matrix", lambda I: tr.shear_from_matrix(tr.shear_matrix(0.3, np.array([1., 0, 0]), I.v, np.array([0., 0, 1]))), ["v"]),
+            ("decompose_matrix", lambda I: tr.decompose_matrix(I.T), ["T"]),
+            ("compose_matrix", lambda I: tr.compose_matrix(scale=I.v + 2, angles=I.v2, translate=I.v), ["v", "v2"]),
+            ("orthogonalization_matrix", lambda I: tr.orthogonalization_matrix([10, 10, 10], [90, 90, 90]), []),
+            ("affine_matrix_from_points", lambda I: tr.affine_matrix_from_points(I.xyz.T, I.xyz2.T), ["xyz", "xyz2"]),
+            ("superimposition_matrix", lambda I: tr.superimposition_matrix(I.xyz.T, I.xyz2.T, scale=True), ["xyz", "xyz2"]),
+            ("vector_norm", lambda I: tr.vector_norm(I.xyz, axis=1), ["xyz"]),
+            ("unit_vector", lambda I: tr.unit_vector(I.xyz, axis=1), ["xyz"]),
+            ("vector_product", lambda I: tr.vector_product(I.v, I.v2), ["v", "v2"]),
+            ("angle_between_vectors", lambda I: tr.angle_between_vectors(I.v, I.v2), ["v", "v2"]),
+            ("inverse_matrix", lambda I: tr.inverse_matrix(I.T), ["T"]),
+            ("concatenate_matrices", lambda I: tr.concatenate_matrices(I.T, I.T2), ["T", "T2"]),
+            ("is_same_transform", lambda I: tr.is_same_transform(I.T, I.T2), ["T", "T2"]),
+            ("arcball_map_to_sphere", lambda I: tr.arcball_map_to_sphere(I.v[:2], I.v2[:2], 1.0), ["v", "v2"]),
+            ("arcball_constrain_to_axis", lambda I: tr.arcball_constrain_to_axis(I.v, I.v2), ["v", "v2"]),
+            ("arcball_nearest_axis", lambda I: tr.arcball_nearest_axis(I.v, I.__dict__.setdefault("axes", [I.v2, I.v])), ["v", "v2"])):
+        add(trn + name, lambda I, f=f, argn=argn: ({k: getattr(I, k) for k in argn}, lambda: f(I), None))
+
+    # ---------------- file_interface
+    add(fin + "write_tum_trajectory_file", lambda I: ({"A": I.A}, lambda: (fi.write_tum_trajectory_file(io.StringIO(), I.A),
+                                                                          fi.write_tum_trajectory_file(os.path.join(I.tmp, "a.tum"), I.A)),
+                                                      (["A"], "RWriteTum 0")))
+    add(fin + "write_kitti_poses_file", lambda I: ({"P": I.P}, lambda: fi.write_kitti_poses_file(io.StringIO(), I.P), (["P"], "RWriteKitti 0")))
+    add(fin + "write_kitti_poses_file", lambda I: ({"A": I.A}, lambda: fi.write_kitti_poses_file(os.path.join(I.tmp, "a.kitti"), I.A), (["A"], "RWriteKitti 0")))
+
+    def bag(I):
+        from rosbags.rosbag1 import Writer
+        with Writer(os.path.join(I.tmp, "t%d.bag" % len(os.listdir(I.tmp)))) as w:
+            fi.write_bag_trajectory(w, I.A, "/pose", "map")
+    add(fin + "write_bag_trajectory", lambda I: ({"A": I.A}, lambda: bag(I), (["A"], "RWriteBag 0")))
+
+    def bag_rt(I):
+        from rosbags.rosbag1 import Writer, Reader
+        p = os.path.join(I.tmp, "r.bag")
+        with Writer(p) as w:
+            fi.write_bag_trajectory(w, I.A, "/pose", "map")
+        with Reader(p) as r:
+            return fi.read_bag_trajectory(r, "/pose")
+    add(fin + "read_bag_trajectory", lambda I: ({"A": I.A}, lambda: bag_rt(I), None))
+
+    def save_res(I, r):
+        fi.save_res_file(os.path.join(I.tmp, "r.zip"), r)
+        return fi.load_res_file(os.path.join(I.tmp, "r.zip"), load_trajectories=True)
+    add(fin + "save_res_file", lambda I: ({"res": I.__dict__.setdefault("r1", I.result(0))}, lambda: save_res(I, I.r1), None))
+    add(fin + "load_res_file", lambda I: ({"res": I.__dict__.setdefault("r1", I.result(0))}, lambda: save_res(I, I.r1), None))
+
+    def text_rt(I, kind):
+        if kind == "tum":
+            b = io.StringIO(); fi.write_tum_trajectory_file(b, I.A); b.seek(0); return fi.read_tum_trajectory_file(b)
+        if kind == "kitti":
+            b = io.StringIO(); fi.write_kitti_poses_file(b, I.A); b.seek(0); return fi.read_kitti_poses_file(b)
+        if kind == "euroc":
+            rows = "\n".join(",".join(repr(float(x)) for x in [s * 1e9] + list(p) + list(q) + [0] * 9)
+                             for s, p, q in zip(I.stamps, I.xyz, I.quat))
+            return fi.read_euroc_csv_trajectory(io.StringIO("#header\n" + rows + "\n"))
+        return fi.csv_read_matrix(io.StringIO("1,2,3\n#c\n4,5,6\n"))
+    add(fin + "read_tum_trajectory_file", lambda I: ({"A": I.A}, lambda: text_rt(I, "tum"), None))
+    add(fin + "read_kitti_poses_file", lambda I: ({"A": I.A}, lambda: text_rt(I, "kitti"), None))
+    add(fin + "read_euroc_csv_trajectory", lambda I: ({"xyz": I.xyz, "quat": I.quat, "stamps": I.stamps}, lambda: text_rt(I, "euroc"), None))
+    add(fin + "csv_read_matrix", lambda I: ({}, lambda: text_rt(I, "csv"), None))
+
+    def load_tf(I):
+        p1, p2, p3 = (os.path.join(I.tmp, n) for n in ("t.npy", "t.txt", "t.json"))
+        np.save(p1, I.T); np.savetxt(p2, I.S)
+        json.dump({"x": 1, "y": 2, "z": 3, "qx": 0, "qy": 0, "qz": 0.6, "qw": 0.8, "scale": 2}, open(p3, "w"))
+        return fi.load_transform(p1), fi.load_transform(p2), fi.load_transform(p3), fi.load_transform_json(p3)
+    add(fin + "load_transform", lambda I: ({"T": I.T, "S": I.S}, lambda: load_tf(I), None))
+    add(fin + "load_transform_json", lambda I: ({"T": I.T, "S": I.S}, lambda: load_tf(I), None))
+
+    # ---------------- pandas_bridge
+    add(pbn + "trajectory_to_df", lambda I: ({"A": I.A, "P": I.P}, lambda: (pb.trajectory_to_df(I.A), pb.trajectory_to_df(I.P)), (["A", "P"], "RToDf 0); CRead (RToDf 1")))
+    add(pbn + "df_to_trajectory", lambda I: ({"df": I.__dict__.setdefault("df", pb.trajectory_to_df(I.A)),
+                                              "df2": I.__dict__.setdefault("df2", pb.trajectory_to_df(I.P))},
+                                             lambda: (pb.df_to_trajectory(I.df), pb.df_to_trajectory(I.df2), pb.df_to_trajectory(I.df, PosePath3D)), None))
+    add(pbn + "trajectory_stats_to_df", lambda I: ({"A": I.A}, lambda: pb.trajectory_stats_to_df(I.A, "a"), (["A"], "RStatsDf 0")))
+    add(pbn + "trajectories_stats_to_df", lambda I: ({"A": I.A, "B": I.B, "d": I.__dict__.setdefault("td", {"a": I.A, "b": I.B})},
+                                                     lambda: pb.trajectories_stats_to_df(I.td), (["A", "B"], "RStatsDf 0); CRead (RStatsDf 1")))
+    add(pbn + "result_to_df", lambda I: ({"res": I.__dict__.setdefault("r1", I.result(0))}, lambda: pb.result_to_df(I.r1), None))
+
+    def table(I):
+        df = pb.result_to_df(I.result(0))
+        s = snap(df)
+        pb.save_df_as_table(df, os.path.join(I.tmp, "t.csv"), "csv", True)
+        if snap(df) != s:
+            raise Violation("save_df_as_table changed the DataFrame")
+    add(pbn + "save_df_as_table", lambda I: ({}, lambda: table(I), None))
+
+    def load_df(I):
+        ps = []
+        for k in range(2):
+            p = os.path.join(I.tmp, "res%d.zip" % k)
+            fi.save_res_file(p, I.result(k))
+            ps.append(p)
+        return pb.load_results_as_dataframe(ps, merge=True), pb.load_results_as_dataframe(ps, use_filenames=True)
+    add(pbn + "load_results_as_dataframe", lambda I: ({}, lambda: load_df(I), None))
+
+    # ---------------- plot
+    PM = plot.PlotMode
+
+    def plt_variant(name, f, argn, reader=None):
+        add(pl + name, lambda I: ({k: (I.trajs[k] if k in I.trajs else getattr(I, k)) for k in argn}, lambda: f(I), reader))
+    plt_variant("traj", lambda I: (plot.traj(I.ax()[1], PM.xy, I.A, label="a", plot_start_end_markers=True),
+                                   plot.traj(I.ax(True)[1], PM.xyz, I.A)), ["A"], (["A"], "RPlotPositions [0]"))
+    plt_variant("trajectories", lambda I: (plot.trajectories(I.ax()[0], I.A), plot.trajectories(I.ax()[0], [I.A, I.B], PM.xz),
+                                           plot.trajectories(I.ax()[0], {"a": I.A, "p": I.P}, PM.xyz, plot_start_end_markers=True)),
+                ["A", "B", "P"], (["A", "B", "P"], "RPlotPositions [0; 1; 2]"))
+    plt_variant("traj_colormap", lambda I: (lambda fa: plot.traj_colormap(fa[1], I.A, I.err, PM.xyz, 0.05, 1.0, fig=fa[0],
+                                                                        plot_start_end_markers=True))(I.ax(True)),
+                ["A", "err"], (["A"], "RPlotPositions [0]"))
+    plt_variant("draw_coordinate_axes", lambda I: plot.draw_coordinate_axes(I.ax()[1], I.A, PM.xy, 0.3), ["A"], (["A"], "RPlotAxes 0"))
+    plt_variant("draw_correspondence_edges", lambda I: plot.draw_correspondence_edges(I.ax()[1], I.A, I.B, PM.xy), ["A", "B"],
+                (["A", "B"], "RPlotPositions [0; 1]"))
+    plt_variant("traj_xyz", lambda I: (plot.traj_xyz(I.axarr(), I.A, start_timestamp=100.0), plot.traj_xyz(I.axarr(), I.P)), ["A", "P"],
+                (["A", "P"], "RPlotPositions [0; 1]"))
+    plt_variant("traj_rpy", lambda I: (plot.traj_rpy(I.axarr(), I.A, start_timestamp=100.0), plot.traj_rpy(I.axarr(), I.P)), ["A", "P"],
+                (["A", "P"], "RPlotRpy 0"))
+    plt_variant("speeds", lambda I: plot.speeds(I.ax()[1], I.A, start_timestamp=100.0), ["A"], (["A"], "RPlotPositions [0]"))
+    plt_variant("add_start_end_markers", lambda I: plot.add_start_end_markers(I.ax()[1], PM.xy, I.A, traj_name="a"), ["A"],
+                (["A"], "RPlotPositions [0]"))
+    plt_variant("error_array", lambda I: (plot.error_array(I.ax()[1], I.err, x_array=I.stamps, statistics={"mean": 0.5, "std": 0.1},
+                                                           threshold=0.9),
+                                          plot.error_array(I.ax()[1], I.err, cumulative=True)), ["err", "stamps"])
+    plt_variant("colored_line_collection", lambda I: (plot.colored_line_collection(I.xyz, ["r"] * (I.n - 1), PM.xy),
+                                                      plot.colored_line_collection(I.xyz, ["r"] * (I.n - 1), PM.xyz)), ["xyz"])
+    plt_variant("prepare_axis", lambda I: I.ax(True), [])
+    plt_variant("set_aspect_equal", lambda I: plot.set_aspect_equal(I.ax(True)[1]), [])
+    plt_variant("plot_mode_to_idx", lambda I: [plot.plot_mode_to_idx(m) for m in PM], [])
+
+    def collection(I, what):
+        pc = plot.PlotCollection("t")
+        fig, ax = I.ax()
+        plot.traj(ax, PM.xy, I.A)
+        pc.add_figure("f", fig)
+        if what == "export":
+            pc.export(os.path.join(I.tmp, "p.png"), confirm_overwrite=False)
+        elif what == "serialize":
+            pc.serialize(os.path.join(I.tmp, "p.pickle"), confirm_overwrite=False)
+        pc.close()
+        return str(pc)
+    for w in ("__init__", "__str__", "add_figure", "export", "serialize", "close"):
+        add(pl + "PlotCollection." + w, lambda I, w=w: ({"A": I.A}, lambda: collection(I, w), None))
+    return T
+
+
+def run_call(case):
+    """One variant of one table entry: snapshot every argument, call, compare; observe caches for the model."""
+    from evo.core.trajectory import PosePath3D
+    table = call_table()
+    I = Inputs(case["mode"], case["warm"], case["seed"])
+    try:
+        args, thunk, reader = table[case["fn"]][case["variant"]](I)
+        before = {k: (snap(v), v) for k, v in args.items()}
+        cold = {k: sorted(a for a in LAZY if a in t.__dict__) for k, t in I.trajs.items()}
+        raised = None
+        try:
+            import contextlib
+            with contextlib.redirect_stdout(io.StringIO()):
+                thunk()
+        except Violation as e:
+            return {"changed": [str(e)], "raised": None, "caches": None, "reader": None}
+        except Exception as e:   # noqa
+            raised = "%s: %s" % (type(e).__name__, str(e)[:160])
+        changed = []
+        for k, (s0, obj) in before.items():
+            d = diff_snap(s0, obj)
+            if d is not None:
+                changed.append("argument %s: %s" % (k, d))
+        out = {"changed": changed, "raised": raised, "reader": None, "caches": None}
+        if reader is not None and raised is None:
+            names, term = reader
+            out["reader"] = {"names": names, "term": term,
+                             "stamped": [hasattr(I.trajs[n], "timestamps") for n in names],
+                             "mode": [("mat" if "_poses_se3" in cold[n] and "_positions_xyz" not in cold[n] else
+                                       "pq" if "_poses_se3" not in cold[n] else "warm") for n in names],
+                             "n": [int(I.trajs[n].num_poses) for n in names]}
+            out["caches"] = [sorted(a for a in LAZY if a in I.trajs[n].__dict__) for n in names]
+        return out
+    finally:
+        I.cleanup()
+
+
+def call_expr(case, out):
+    rd = out.get("reader")
+    if not rd:
+        return "tt"
+    cmds = []
+    for k, n in enumerate(rd["names"]):
+        mode = rd["mode"][k]
+        cmds.append("CInit %s %s %s" % (cnat(1 if mode == "pq" else 0), cnat(rd["n"][k]), cbool(rd["stamped"][k])))
+    while len(cmds) < 2:
+        cmds.append("CInitBag 1%nat")
+    cmds.append("CInitBag 2%nat")
+    for k, n in enumerate(rd["names"]):
+        if rd["mode"][k] == "warm":
+            cmds += ["CGet %s GPos" % cnat(k), "CGet %s GQuat" % cnat(k), "CGet %s GPoses" % cnat(k)]
+    cmds.append("CRead (%s)" % rd["term"])
+    return "report cfg_new [%s]" % "; ".join(cmds)
+
+
+def call_judge(case, val, out):
+    if out["changed"] and all("REBOUND" in c for c in out["changed"]):
+        return {"kind": "model-vs-impl", "failing_input": False, "correspondence": "Heap.reader_prog (kept: cached arrays)",
+                "detail": "%s (variant %d, storage %s, caches %s): %s" % (
+                    case["fn"], case["variant"], case["mode"], "warm" if case["warm"] else "cold", "; ".join(out["changed"]))}
+    if out["changed"]:
+        return {"kind": "spec-violation", "failing_input": True,
+                "detail": "%s (variant %d, storage %s, caches %s, seed %d): %s" % (
+                    case["fn"], case["variant"], case["mode"], "warm" if case["warm"] else "cold", case["seed"],
+                    "; ".join(out["changed"]))}
+    if out["raised"]:
+        return {"kind": "model-vs-impl", "failing_input": False, "correspondence": "call table (valid inputs)",
+                "detail": "%s raised %s on an input that the table considers valid" % (case["fn"], out["raised"])}
+    if out.get("reader"):
+        objs_dump, log = val
+        for k, n in enumerate(out["reader"]["names"]):
+            o = objs_dump[k]
+            model = sorted(a for a, present in zip(LAZY, (bool(o[1]), bool(o[2]), bool(o[3]))) if present)
+            if model != out["caches"][k]:
+                return {"kind": "model-vs-impl", "failing_input": False, "correspondence": "Heap.reader_prog",
+                        "detail": "%s: caches of argument %s after the call: model %r, implementation %r" % (
+                            case["fn"], n, model, out["caches"][k])}
+        if any(w for w, _ in log):
+            return {"kind": "model-vs-impl", "failing_input": False, "correspondence": "Heap.reader_prog",
+                    "detail": "model reader writes a pre-existing cell"}
+    return None
+
+
+def call_cases(ctx):
+    table = call_table()
+    cases = []
+    for fn in sorted(table):
+        for v in range(len(table[fn])):
+            for mode in ("mat", "pq"):
+                for warm in (False, True):
+                    for s in range(ctx.n(1, 3)):
+                        cases.append({"kind": "call", "fn": fn, "variant": v, "mode": mode, "warm": warm, "seed": 40 + s})
+    return cases
+
+
+
+# ================================================================== random longer histories (several live objects)
+def random_histories(ctx):
+    """Several live objects; ["pick", j] = the (j mod k)-th of the k live objects with at least 4 poses."""
+    rng, cases = ctx.rng, []
+    safe = [["transform", False, False, "se3"], ["transform", True, True, "se3"], ["transform", True, False, "sim3"],
+            ["scale", 0.5], ["project", "xy"], ["project", "xz"], ["project", "yz"], ["reduce", "head"],
+            ["downsample", 5], ["time_range"], ["align_origin", ["pick", 1]], ["align_origin", ["pick", 2]]]
+    for k in range(ctx.n(80, 2500)):
+        mode = "mat" if k % 2 else "pq"
+        body = []
+        for step in range(rng.randrange(3, ctx.n(8, 14))):
+            r = rng.random()
+            p = ["pick", rng.randrange(64)]
+            if r < 0.35:
+                d = [["copy", p], ["split", "dist", p, 1e6], ["split", "dist", p, 10.0], ["split", "time", p, 5.0],
+                     ["split", "time", p, 1e6], ["split", "speed", p, 1e6], ["merge", [p]],
+                     ["ctor_poses", p, True], ["ctor_poses", p, False], ["ctor_pq", p]]
+                body.append(d[rng.randrange(len(d))])
+            elif r < 0.85:
+                body.append(_mut(safe[rng.randrange(len(safe))], p))
+            else:
+                body.append(["get", p, ["pos", "quat", "poses"][rng.randrange(3)]])
+        cases.append(mk_hist(mode, 30 + k % 13, WARMS[rng.randrange(len(WARMS))], body, WARMS[rng.randrange(len(WARMS))]))
+    return cases
+
+
+# ================================================================== driver
+def impl(case):
+    if case["kind"] == "history":
+        return run_history(case["hist"])
+    return run_call(case)
+
+
+def expr(case, out):
+    return hist_expr(case, out) if case["kind"] == "history" else call_expr(case, out)
+
+
+def judge(case, val, out):
+    return hist_judge(case, val, out) if case["kind"] == "history" else call_judge(case, val, out)
+
+
+def nontrivial(case, val, out):
+    if case["kind"] == "history":
+        # a derived object was really changed by an in-place method and at least 3 objects are alive
+        return "steps" in out and any(st.get("changed") for st in out["steps"]) and len(out["graph"]["shape"]) >= 3
+    return not out.get("raised")
+
+
+def shrink(case):
+    if case["kind"] != "history":
+        return
+    h = case["hist"]
+    creating = ("init", "copy", "assoc", "merge", "split", "ctor_poses", "ctor_pq")
+    for k in range(len(h) - 1, 1, -1):
+        if h[k][0] not in creating:
+            yield {"kind": "history", "hist": h[:k] + h[k + 1:]}
+    if len(h) > 3:
+        yield {"kind": "history", "hist": h[:-1]}
+
+
+CORPUS = [
+    # finding F5a (fixed by 6234e49): read positions; split; project a part
+    {"kind": "history", "hist": [["init", "mat", N_A, 1, True], ["init", "pq", N_O, 2, True], ["get", 0, "pos"],
+                                 ["split", "time", 0, 5.0], ["project", ["r", 0], "xy"], ["get", 0, "poses"]]},
+    {"kind": "history", "hist": [["init", "pq", N_A, 1, True], ["init", "mat", N_O, 2, True],
+                                 ["split", "dist", 0, 10.0], ["project", ["r", 1], "xz"]]},
+    # finding F5b (fixed by ce2eb42): nothing to cut; operate on the single part
+    {"kind": "history", "hist": [["init", "mat", N_A, 1, True], ["init", "pq", N_O, 2, True],
+                                 ["split", "time", 0, 1e6], ["scale", ["r", 0], 3.0]]},
+    {"kind": "history", "hist": [["init", "pq", N_A, 1, True], ["init", "mat", N_O, 2, True],
+                                 ["split", "speed", 0, 1e6], ["transform", ["r", 0], False, False, "se3"]]},
+    {"kind": "history", "hist": [["init", "mat", 1, 1, True], ["init", "pq", 1, 2, True],
+                                 ["split", "dist", 0, 1.0], ["scale", ["r", 0], 3.0], ["split", "time", 1, 1.0],
+                                 ["transform", ["r", 0], True, False, "se3"]]},
+    # the constructor shares the caller's list of matrices; project the new object (old code rewrote the source)
+    {"kind": "history", "hist": [["init", "mat", N_A, 1, True], ["init", "pq", N_O, 2, True],
+                                 ["ctor_poses", 0, True], ["project", ["r", 0], "yz"], ["get", 0, "pos"]]},
+    # PosePath3D (no timestamps)
+    {"kind": "history", "hist": [["init", "mat", N_A, 1, False], ["init", "pq", N_O, 2, False],
+                                 ["split", "dist", 0, 10.0], ["project", ["r", 2], "xy"], ["copy", 1],
+                                 ["align_origin", ["r", 0], 0], ["ctor_poses", 1, False], ["ctor_pq", 0]]},
+]
+
+
+def run(ctx, replay=None, proofs_ok=True):
+    names, failed = enumerate_public()
+    table = call_table()
+    if replay is not None:
+        cases = [replay["case"]]
+    else:
+        cases = CORPUS + call_cases(ctx) + systematic_histories(ctx) + three_step_histories(ctx) + random_histories(ctx)
+    failures, stats = differential(ctx, cases, imports=IMPORTS, impl=impl, expr=expr, judge=judge, shrink=shrink,
+                                   nontrivial=nontrivial, scope=None, per_file=80)
+    covered = [n for n in names if n in table]
+    skipped = {}
+    for n in names:
+        if n in table:
+            continue
+        mod = next((m for m in SKIP_MODULE if n.startswith(m + ".")), None)
+        skipped[n] = SKIP_NAME.get(n) or (SKIP_MODULE[mod] if mod else "UNCOVERED")
+    for m, why in failed.items():
+        skipped[m + ".*"] = "module not importable here (%s): %s" % (why, SKIP_MODULE.get(m, ""))
+    uncovered = sorted(n for n, w in skipped.items() if w == "UNCOVERED")
+    if uncovered:
+        ctx.notes.append("public functions without a call-table entry: %s" % ", ".join(uncovered))
+    hist = {}
+    for c in cases:
+        if c["kind"] == "history":
+            key = "history:len=%d" % len(c["hist"])
+        else:
+            key = "call:" + c["fn"].split(".")[2]
+        hist[key] = hist.get(key, 0) + 1
+    n_hist = sum(1 for c in cases if c["kind"] == "history")
+    cov = {
+        "evaluations": stats["evaluations"], "distinct_nontrivial": stats["distinct_nontrivial"],
+        "rule": "(a) every entry of the call table x variants x {matrix, xyz+quaternion storage} x {cold, warm caches}; "
+                "(b,c) corpus (F5a/F5b reproducers, PosePath3D) + systematic 2-step histories (15 derivations x 20 "
+                "in-place operations x 2 storage modes x 4 cache states of the source; quick: every 3rd) + 3-step "
+                "histories + random histories with several live objects; distinct by input; non-trivial = history "
+                "with >= 3 live objects in which an in-place method really changed its object / call that returned",
+        "samples": [cases[0], cases[min(len(CORPUS), len(cases) - 1)], cases[-1]],
+        "input_distribution": hist, "exhaustive": False,
+        "functions_public": len(names), "functions_covered": len(covered), "functions_skipped": len(skipped),
+        "skipped_reasons": skipped, "call_cases": len(cases) - n_hist, "histories": n_hist,
+        "sharing_graph_comparisons": n_hist, "disagreements": stats["disagreements"],
+        "observations_outside_the_property": [
+            "PosePath3D(poses_se3=lst) keeps the caller's list and matrices (construction, modelled as CCtorPoses)",
+            "split parts share the parent's pose matrices (harmless: no operation of the current code writes a "
+            "pre-existing array; modelled and proved)",
+            "PE.get_result() puts the metric's own error array into the Result; a later PE.change_unit() between "
+            "length units rewrites it in place (Result is not derived from a trajectory; modelled as NBagShare)",
+            "merge_results([r]) returns r itself",
+            "transform(right_mul=True, propagate=True) keeps the first pose matrix of the old list",
+        ],
+    }
+    return {"failures": failures, "coverage": cov}
